@@ -574,7 +574,9 @@ def run(ck):
                     if pt.startswith('Some('):
                         bs_ = H.pat_bindings(arm['pat'])
                         used = [b for b in bs_ if any(x.get('k') == 'Path' and x.get('hid') == b['hid'] for x in walk(arm['body']))]
-                        if not used and not nonediag.pushes_in(L, arm['body']):
+                        # a literal inside the pattern (`Some((_, true))`, as matches! writes it) decides on the value: that is a use
+                        tests = any(x.get('k') in ('PLit', 'PRange') for x in walk(arm['pat']))
+                        if not used and not tests and not nonediag.pushes_in(L, arm['body']):
                             bad.append(pt)
                 ck.ob('R4.1u', key, not bad, L.loc(c), 'every Some(..) arm uses the value or pushes a diagnostic' if not bad else 'Some arm(s) %s drop the value silently' % bad, fn=fn['path'])
             elif pk == 'LetCond' and par.get('e') is node:
